@@ -508,6 +508,7 @@ func genSpecs(r *rand.Rand, thorough bool) []*Spec {
 		if r.Intn(3) == 0 {
 			s.DelayUs = 100 + r.Intn(900)
 		}
+		s.VaryTopic = i%4 >= 2
 		out = append(out, s)
 	}
 	// the ordinary two-subscriber sequences (malformed / foreign / Unsubscribe)
